@@ -91,6 +91,12 @@ Theorem c20_messages_are_whole_frames_under_cancellation_and_writes :
 Proof. intros. eapply aconv_messages_whole; eassumption. Qed.
 
 
+(* the connection structs and the codec of the source have exactly the fields the models carry as state (regenerated field
+   names): nothing else can be left behind by a failed or dropped write *)
+Theorem c20_model_state_is_the_struct : state_tied = true.
+Proof. vm_compute. reflexivity. Qed.
+
+
 (* non-vacuity: a frame split across two binary messages with a text message between them, two frames in one
    message, an empty binary message, then closure; 2-byte slices *)
 Example c20_example :
